@@ -142,6 +142,11 @@ def run_cases(prop, spec, cases, stats, log):
         if exe is None:
             return (j, "BUILD", err, dt, [])
         outs = []
+        if spec.get("check_ids"):
+            bad_ids = corr.check_ids(md, exe, c)
+            stats.dist[("id-maps-checked",)] += 1
+            if bad_ids:
+                outs.append(("IDS", [], bad_ids[0], None))
         for ops in opss:
             try:
                 r = corr.compare(md, c, ops, exe)
@@ -160,6 +165,9 @@ def run_cases(prop, spec, cases, stats, log):
             continue
         stats.programs += 1
         for kind, ops, info, r in outs:
+            if kind == "IDS":
+                violations.append({"machine": n, "cfg": c, "md": md, "ops": [], "why": info})
+                continue
             if kind == "EXC":
                 mismatches.append({"machine": n, "cfg": c, "kind": "exception", "detail": info, "md": md, "ops": ops})
                 continue
@@ -232,17 +240,24 @@ def run_check(prop, spec, tier, replay=None):
     # 1. pinned replays: known findings (must still fail the monitor / be reported) and fixed ones (must pass)
     known_lines, violations, mismatches = [], [], []
     for kf in known_findings():
-        if prop not in kf["properties"]:
+        if prop not in kf["properties"] or not kf.get("replay"):
             continue
         md, cfg, ops = load_replay(os.path.join(VERIF, kf["replay"]))
         r = corr.compare(md, cfg, ops)
-        mv = spec["monitor"](r["root_lib"], cfg, ops, r["impl"], stats, r) if spec.get("monitor") and r.get("impl") else []
         if kf["kind"] == "known":
+            # the defect is still in the tree: show it on the implementation's own trace
+            exe, _, _ = corr.build_binary(md, cfg)
+            raw, _ = corr.run_impl(exe, ops)
+            blocks = corr.split_ops(raw)
+            rr = {"impl": blocks, "impl_raw": corr.split_ops(raw, True), "root_lib": msmgen.renumber(md["root"], corr.read_ids(exe))}
+            mv = spec["monitor"](rr["root_lib"], cfg, ops, blocks, stats, rr) if spec.get("monitor") else []
+            agrees = r.get("bad") or r["ok"]
             if mv or kf.get("expect") == "model-agrees":
                 known_lines.append("KNOWN-FINDING: property=%s %s (%s)" % (prop, kf["what"], kf["id"]))
-            if not r["ok"]:
+            if not agrees:
                 mismatches.append({"machine": kf["id"], "cfg": cfg, "kind": "trace", "detail": r.get("first_diff"), "md": md, "ops": ops})
         else:
+            mv = spec["monitor"](r["root_lib"], cfg, ops, r["impl"], stats, r) if spec.get("monitor") and r.get("impl") else []
             if not r["ok"]:
                 mismatches.append({"machine": kf["id"] + " (fixed defect returned)", "cfg": cfg, "kind": "trace",
                                    "detail": r.get("first_diff"), "md": md, "ops": ops})
